@@ -282,6 +282,7 @@ impl Family for Isolation {
             rep.nontrivial_key = Some(format!("{}|{}", site, case));
         }
         let replay = json!({"kind": "project", "project": site, "files": proj.files, "expect_accept": expect_accept});
+        rep.sample = Some(json!({"configuration": site, "files": proj.files, "expect_accept": expect_accept}));
         let (w, _) = whole(&root);
         match (&w, expect_accept) {
             (Built::Ok { go }, true) => {
